@@ -78,6 +78,20 @@ def gen_case(rng: Rng, i: int, tier: str):
     case = {"session": sess, "target": target, "knobs": knobs, "rng": r.randrange(1 << 30),
             "read": {"kind": r.pick(["path", "stream"]), "block": gen.gen_knobs(r)["block"], "chunk": gen.gen_knobs(r)["chunk"]},
             "volume": vol, "path_extract": pathx}
+    rbp = rng.sub("bigpiece")
+    if rbp.chance(0.006) and not plant:
+        # directed: default knobs (1 MiB block, 128 MB chunk) and a member of several MiB that compresses about 2:1, so that
+        # the decoder hands out pieces larger than 1 MiB, several per member
+        sess["chain"] = rbp.pick([None, [{"id": "ZSTD", "level": 3}], [{"id": "DEFLATE"}], [{"id": "LZMA2", "preset": 1}], [{"id": "BZIP2"}], [{"id": "LZMA", "preset": 1}]])
+        nm = gen.gen_names(rbp, 2, style="ascii", safe_prefix=True)
+        sess["ops"] = [{"op": "writestr", "name": nm[0], "content": {"tex": "text", "len": 100, "seed": 1}, "as": "bytes"},
+                       {"op": "writestr", "name": nm[1], "content": {"tex": "half", "len": rbp.pick([5 << 20, (4 << 20) + 17]), "seed": rbp.randrange(1 << 30)}, "as": "bytes"}]
+        if gen.chain_has_aes(sess["chain"]) and sess["password"] is None:
+            sess["password"] = "secret"
+        case["knobs"] = {"block": 1048576, "chunk": 128000000, "bufsize": 8192}
+        case["read"] = {"kind": rbp.pick(["path", "stream"]), "block": 1048576, "chunk": 128000000}
+        case["target"] = "path"
+        case["path_extract"] = False
     if plant:
         case["plant"] = plant
         case["read"]["block"] = rp.pick([16, 17, 255, 4096])
